@@ -33,7 +33,7 @@ pub struct Layout {
     pub order: u8,     // 0 file, 1 reversed, 2 rotated
     pub numfmt: u8,    // 0 shortest, 1 %f (6 decimals), 2 right-aligned width 14, 3 exponent with explicit sign (7e+00)
     pub quote_words: bool,
-    pub lists: u8,     // 0 one line, 1 broken after every comma, 2 broken + closing paren on its own line
+    pub lists: u8,     // 0 one line, 1 broken after every comma, 2 broken + closing paren on its own line, 3 broken before every comma
     pub comments: u8,  // 0 none, 1 between blocks, 2 between and inside blocks (+ blank lines)
     pub indent: u8,    // 0 none, 1 tab, 2 twelve spaces + trailing blanks
     pub preamble: bool,
@@ -46,7 +46,7 @@ impl Layout {
             for order in 0..3 {
                 for numfmt in 0..4 {
                     for quote_words in [false, true] {
-                        for lists in 0..3 {
+                        for lists in 0..4 {
                             for comments in 0..3 {
                                 for indent in 0..3 {
                                     for preamble in [false, true] {
@@ -98,6 +98,8 @@ fn fmt_val(v: &AVal, l: &Layout, ind: &str) -> String {
             String::new()
         } else if l.lists == 0 {
             ", ".to_string()
+        } else if l.lists == 3 {
+            format!("\n{}      , ", ind)
         } else {
             format!(",\n{}      ", ind)
         }
